@@ -118,6 +118,23 @@ def constant_value(expression, bindings=None):
                 expression.type.which_type
             )
     elif expression.which_expression == "function":
+        if expression.function.function in (
+            ir_data.FunctionMapping.UPPER_BOUND,
+            ir_data.FunctionMapping.LOWER_BOUND,
+        ):
+            # The value of $upper_bound()/$lower_bound() is whatever bound was
+            # inferred for the argument, which is not necessarily the argument's
+            # constant_value().  Like constant references, it has to be read from
+            # the type information: it is known once expression_bounds has run
+            # and the bound is finite, and unknown otherwise.
+            bounds = expression.type.integer
+            if bounds.modulus == "infinity" and bounds.modular_value not in (
+                None,
+                "infinity",
+                "-infinity",
+            ):
+                return int(bounds.modular_value)
+            return None
         return _constant_value_of_function(expression.function, bindings)
     elif expression.which_expression == "field_reference":
         return None
